@@ -2,6 +2,8 @@
 
 package flyt
 
+import "time"
+
 // C12 — worker pool: tasks run exactly once, Wait is a barrier, Close leaks nothing.
 
 type c12Mon struct {
@@ -57,12 +59,19 @@ func VH_C12_rounds() {
 	pool := NewWorkerPool(w)
 	ran := make([]int, 2*t)
 	vRaceChecked(ran)
+	idle := vNondet[bool]("idleBetweenTheRounds")
+	if idle {
+		vCover("idle-between-the-rounds")
+	}
 	for round := 0; round < 2; round++ {
 		for i := 0; i < t; i++ {
 			k := round*t + i
 			pool.Submit(func() { ran[k]++ })
 		}
 		pool.Wait()
+		if round == 0 && idle {
+			time.Sleep(time.Second) // the pool sits idle for a (virtual) second between the rounds
+		}
 		for i := 0; i < (round+1)*t; i++ {
 			vAssert(ran[i] == 1, "every-task-ran-exactly-once")
 		}
